@@ -541,6 +541,7 @@ class Emitter:
             p.expect('(')
             ft = p.type(); fv = s.value(p, ft, env); p.expect('to'); tt = p.type(); p.expect(')')
             if isinstance(ft, PtrTy) and isinstance(ft.to, FnTy):
+                if s.opts.get('indirect') and fv.startswith('((void*)&'): return '((%s)%s)' % (s.cty(tt), fv)
                 return '((%s)0)' % s.cty(tt)   # function pointer constant: opaque
             if v == 'ptrtoint': return '((%s)(uintptr_t)%s)' % (s.cty(tt), fv)
             if v == 'inttoptr': return '((%s)(uintptr_t)%s)' % (s.cty(tt), fv)
@@ -551,6 +552,10 @@ class Emitter:
         if name in s.m.globals:
             s.used_globals.add(name)
             return '(&G_%s)' % cname(name)
+        if name in s.m.funcs and s.opts.get('indirect'):
+            # opt-in: function addresses are kept (vtables, function pointers) so that indirect calls can be resolved by CBMC
+            s.fnrefs = getattr(s, 'fnrefs', set()); s.fnrefs.add(name)
+            return '((void*)&%s)' % cname(name)
         if name in s.m.funcs or name in s.m.decls:
             return '((void*)0)'
         raise Unsupported('unknown global ' + name)
@@ -881,9 +886,17 @@ def translate_function(E, f):
                         p.expect('to'); p.expect('label'); normal = p.next()[1]; p.expect('unwind'); p.expect('label'); unwind = p.next()[1]
                     if callee[0] == '%':
                         # indirect call (virtual dispatch / function pointer): refused at run time, not approximated
-                        stmts = ['__CPROVER_assert(0, "indirect call reached in %s: virtual dispatch is not modelled"); __CPROVER_assume(0);' % cname(f.name)]
-                        if ins.res is not None and not isinstance(rty, VoidTy):
-                            env.types[ins.res] = rty; decls.append((ins.res, rty))
+                        if E.opts.get('indirect'):
+                            # opt-in: a real C call through the pointer (CBMC resolves it against the functions whose address is taken)
+                            fpt = '%s (*)(%s)' % (E.cty(rty), ', '.join(E.cty(t) for t, _ in args) or 'void')
+                            callx = '((%s)%s)(%s)' % (fpt, env.local(callee), ', '.join(a for _, a in args))
+                            if ins.res is not None and not isinstance(rty, VoidTy): stmts = [setres(ins, rty, callx)]
+                            else: stmts = [callx + ';']
+                            stmts.append('if (__verif_exc) %s' % retzero())
+                        else:
+                            stmts = ['__CPROVER_assert(0, "indirect call reached in %s: virtual dispatch is not modelled"); __CPROVER_assume(0);' % cname(f.name)]
+                            if ins.res is not None and not isinstance(rty, VoidTy):
+                                env.types[ins.res] = rty; decls.append((ins.res, rty))
                         E.indirect = getattr(E, 'indirect', 0) + 1
                     else:
                         stmts = emit_call(E, f, env, ins, rty, callee, args, decls, retzero)
@@ -1072,7 +1085,47 @@ def translate(text, only=None, opts=None, module=None):
                     inits[g] = E.value(init, ty, Env())
                 except Unsupported as e:
                     inits[g] = '/*unsupported %s*/' % e
+    dummy = []
+    if (opts or {}).get('indirect'):
+        # functions whose address is taken (vtable slots): translate them too, then revisit globals they use; a target that cannot be
+        # translated becomes a body-less trap so that reaching it is reported rather than approximated
+        progress = True
+        while progress:
+            progress = False
+            for n in sorted(getattr(E, 'fnrefs', set())):
+                if n in done or n in skipped or n[1:] in [d[0] for d in dummy]: continue
+                progress = True
+                tmp = {}; stack = [n]
+                try:
+                    while stack:
+                        k = stack.pop()
+                        if k in done or k in tmp: continue
+                        if k in m.unsupported: raise Unsupported('%s: %s' % (k, m.unsupported[k]))
+                        if k not in m.funcs: raise Unsupported('no such function ' + k)
+                        E.need = set()
+                        tmp[k] = translate_function(E, m.funcs[k])
+                        stack.extend(E.need - set(done) - set(tmp))
+                    done.update(tmp)
+                except Unsupported as e:
+                    dummy.append((n[1:], str(e)[:200]))
+            changed = True
+            while changed:
+                changed = False
+                for g in m.order:
+                    if g not in E.used_globals or g in inits: continue
+                    ty, init, const, external = m.globals[g]
+                    changed = True; progress = True
+                    if external or init is None: inits[g] = None
+                    else:
+                        try:
+                            if isinstance(init, P): init.i0 = getattr(init, 'i0', init.i); init.i = init.i0
+                            inits[g] = E.value(init, ty, Env())
+                        except Unsupported as e:
+                            inits[g] = '/*unsupported %s*/' % e
     gdecl = []; gdef = []
+    for nm_, why in dummy:
+        gdecl.append('void %s(void);   /* address-taken function that could not be translated: %s */' % (cname('@' + nm_), why.replace('*/', '* /')))
+        gdef.append('void %s(void) { __CPROVER_assert(0, "reached an untranslated address-taken function"); __CPROVER_assume(0); }' % cname('@' + nm_))
     for g in m.order:
         if g not in inits: continue
         ty, init, const, external = m.globals[g]
